@@ -104,6 +104,9 @@ FIXED += [
     ("C13", "f5fb644", "every date literal of a day whose local midnight does not occur (America/Santiago 2038-09-05: the clock jumps from 00:00 to 01:00) was rejected with `Can't parse datetime`, even `'2038-09-05 12'` (second audit; the earlier repair 5d63b84 had only covered a midnight that occurs twice; Santiago and such days are now in C13's pools)", []),
     ("C15", "7874af3", "a boolean value inside arithmetic was 1 / 0 when first evaluated and 0 once kept as the text `true`: `kana(name) + 1` depended on the columns before it, `kana(name) - kana(name)` was 1, `is_dir + 1` showed 1 where `where is_dir + 1 = 2` held (second audit; C15's pair cases now put boolean columns and functions into arithmetic and compare the displayed value with WHERE)", []),
     ("C15", "9f1b1ae", "`concat(\"a', 'b\")` and `concat('a', 'b')` shared one expression text (a quote inside a literal was not marked): selected together, the second column showed the first one's value (second audit, agents C15 and C16; such pairs are now among C15's confusable pairs)", []),
+    ("C16", "3e71921", "`substr('hello', 1, 18446744073709551616)` was empty: a length that does not fit the counter dropped the whole result (second audit; lengths of 2^31, 2^64-1, 2^64 and 10^20 are now drawn)", []),
+    ("C16", "54517d2", "`log(1000)` printed 2.9999999999999996 and `where log(size) = 3` found no 1000-byte file (ln(x)/ln(10)) (second audit; the reference had used the same quotient and a tolerance - it now demands the exact exponent for exact powers of 2, 10 and 16)", []),
+    ("C16", "86bdcbb", "`least(3, 'x')` was 3 while `least('x', 3)` is empty; `greatest(size, 1000, 'abc')` ignored the text: later arguments that are no numbers were skipped (second audit; the reference had skipped them too - an argument of the wrong kind now empties the result wherever it stands)", []),
     ("C10", "2e125e2", "a flat chain of some 20 000 `or` / `and` conditions (one word per argument) or 17 000 arithmetic operators ended with a stack overflow (SIGSEGV / abort), and `not (a or a ...)` over 3000 conditions took 8 s to parse: the tree of a chain was as deep as the chain is long (second audit; C10 now enumerates flat chains up to the length a command line can have)", []),
     ("C10", "cbb17ce", "`where is_dir = ''`: the empty text literal was accepted as the boolean false (status 0, rows) while every other text that is no boolean is rejected (second audit; '' and ' ' are now among C10's bad booleans, and literals that are no number on numeric columns are a fourth ill-typed kind)", []),
     ("C10", "9b6a0a7", "day('2020-0\u0661-01'): the date pattern matched non-ASCII digits and the integer parse of the capture was unwrapped (found by the eval_total fuzz target after 2e7 executions)", ["date-non-ascii-digit"]),
